@@ -393,6 +393,9 @@ class PercentFormatString:
                 f"got {num_args} but expected {num_specifiers}"
             )
         elif num_args > num_specifiers:
+            if all_args == (args,) and _is_mapping_like(args, self.is_bytes):
+                # CPython never treats a mapping-like right operand as unused.
+                return
             yield (
                 f"too many arguments to format string: "
                 f"got {num_args} but expected {num_specifiers}"
@@ -400,6 +403,22 @@ class PercentFormatString:
         else:
             for arg, specifier in zip(all_args, specifiers):
                 yield from specifier.accept(arg, ctx)
+
+
+def _is_mapping_like(args: Value, is_bytes: bool) -> bool:
+    """Whether CPython skips its "not all arguments converted" check for this
+    right operand: anything with __getitem__ that is not a tuple or a str (for a
+    bytes pattern: nor bytes or a bytearray)."""
+    if isinstance(args, AnnotatedValue):
+        args = args.value
+    if isinstance(args, KnownValue):
+        typ = type(args.val)
+    elif isinstance(args, TypedValue) and isinstance(args.typ, type):
+        typ = args.typ
+    else:
+        return False
+    strings = (bytes, bytearray, str) if is_bytes else (str,)
+    return hasattr(typ, "__getitem__") and not issubclass(typ, (tuple, *strings))
 
 
 def check_string_format(
